@@ -348,6 +348,26 @@ func init() {
 					d.Do(Ev{"op": "sem.cmp", "a": ver("1", "0", "0", a, ""), "b": ver("1", "0", "0", b, "")})
 				}
 			}
+			// a related pair compared in ONE direction only (as a sort does), then the two-way event on the
+			// identifiers it shares a prefix or suffix with; pairs that nothing else in this process compares
+			for _, xy := range [][2]string{{"12", "7"}, {"8", "13"}, {"31", "4"}, {"205", "88"}, {"0", "14"}} {
+				for _, fix := range []string{"rc", "a", "-", "x-", "Z"} {
+					d.Do(Ev{"op": "sem.one", "a": ver("1", "0", "0", fix+xy[0], ""), "b": ver("1", "0", "0", fix+xy[1], "")})
+					d.Do(Ev{"op": "sem.cmp", "a": ver("1", "0", "0", xy[0], ""), "b": ver("1", "0", "0", xy[1], "")})
+					d.Do(Ev{"op": "sem.one", "a": ver("2", "0", "0", xy[0]+fix, ""), "b": ver("2", "0", "0", xy[1]+fix, "")})
+					d.Do(Ev{"op": "sem.cmp", "a": ver("2", "0", "0", xy[0], ""), "b": ver("2", "0", "0", xy[1], "")})
+				}
+			}
+			// identifiers that share a prefix or a suffix with the pair compared just before: what was
+			// learnt about "rc10" against "rc9" says nothing about "10" against "9" (and back)
+			for _, xy := range [][2]string{{"10", "9"}, {"9", "10"}, {"2", "11"}, {"100", "99"}, {"7", "7"}, {"0", "10"}} {
+				for _, fix := range []string{"rc", "a", "-", "x-", "Z"} {
+					for _, tr := range [][2]string{{fix + xy[0], fix + xy[1]}, {xy[0], xy[1]}, {fix + xy[0], fix + xy[1]},
+						{xy[0] + fix, xy[1] + fix}, {xy[0], xy[1]}, {xy[1], xy[0]}, {"b." + xy[0], "b." + xy[1]}} {
+						d.Do(Ev{"op": "sem.cmp", "a": ver("1", "0", "0", tr[0], ""), "b": ver("1", "0", "0", tr[1], "")})
+					}
+				}
+			}
 			// invalid operands: the string helpers must fail, and only then
 			for _, p := range []string{"a..b", "01", "a+b", "é", " "} {
 				d.Do(Ev{"op": "sem.cmp", "a": ver("1", "0", "0", p, ""), "b": ver("1", "0", "0", "a", "")})
